@@ -38,10 +38,15 @@ asked the operation under test for its own key (C12_e2: now derived independentl
 0 to unexpected draws under forced settings and thereby hid a silently ignored setting (C01_e1: it now answers the opposite
 of the forced value). Preparing the
 workload for C13_b2 (mixed before/after noise placement) exposed one more genuine defect of the unchanged tree (fix
-`118f47a`). Per-run fork isolation (`sim/core.run_isolated`) was added because of C16_a2 (state kept in a mutable default
+`118f47a`), and the wave-e agent for C02, while sampling 10-vertex targets for its own demonstration, ran into another one
+(the unchanged solver returning a fidelity-0 circuit: `inverse_circuit`, fix `898a575`; C02's workload had stopped at 8
+vertices and now goes to 10). Per-run fork isolation (`sim/core.run_isolated`) was added because of C16_a2 (state kept in a mutable default
 argument): without it a violation depends on which runs happened to share a worker process and does not replay.
 Two rare-input changes (C02_a2, C02_b2: about 0.1-0.3 % of the drawn targets) are caught by the quick tier for the seeds
-tried but can be missed by an unlucky seed; the thorough tier (40 000 targets) finds them many times over.
+tried but can be missed by an unlucky seed; the thorough tier (40 000 targets) finds them many times over. The same
+happened once to C10_d1 in the final regression of all changes (needs a negative emitter-only generator at a time-reversed
+measurement, 0.3-1 % of targets; about 2 hits in 900 runs): C10's quick tier now draws 1 400 runs with 20 % 8-vertex
+targets (4-10 hits per batch over six values of VERIF_SEED).
 
 {table}
 Rejected as seeded changes (recorded for calibration): my own first version of `m02` (dropping gate *and* tableau update
